@@ -115,7 +115,7 @@ def run_traces(ctx, scenario, shards, games, plies, with_sum=False, label=None, 
 
     bad, events, histories, skipped = [], 0, 0, 0
     n = 1 if scenario == "scripts" else shards
-    with ThreadPoolExecutor(max_workers=min(n, 12)) as ex:
+    with ThreadPoolExecutor(max_workers=min(n, 8)) as ex:   # each recorder holds ~2.2 GB (the generator's default caches), each TLC 1.5 GB
         results = list(ex.map(one, range(n)))
     for i, out, summ, r in results:
         if r.violated:
